@@ -110,6 +110,7 @@ def gen_contents(rng, tree, other=None):
     another package's contents, and fresh ones"""
     live = [tuple(nd["p"]) for nd in tree]
     livedirs = [()] + [tuple(nd["p"]) for nd in tree if nd["k"] == "dir"]
+    livedirs += [tuple(nd["p"]) for nd in tree if nd["k"] == "sym"][:2]        # entries below a symlink (symlinked ancestor)
     ents = {}
     for _ in range(rng.randint(1, 10) * 2):
         r = rng.random()
@@ -291,7 +292,7 @@ def run(ctx):
     cases = list(CORPUS)
     if ctx.replay_cases:
         cases = [(c["kind"], c["tree"], c["old"], c.get("new")) for c in ctx.replay_cases if "kind" in c] + cases
-    for _ in range(ctx.n(700, 14000)):
+    for _ in range(ctx.n(1800, 16000)):
         tree = gen_root(rng)
         kind = rng.choice(["unmerge", "uninstall", "uninstall", "replace", "replace"])
         if rng.random() < 0.5:
